@@ -167,6 +167,8 @@ def _op(g, dataset):
         return {"op": k, "data": _data(g, dataset, False)}
     if k == "delete-where":
         tpl = {"triples": [[V("s"), g.pick(PREDS), V("o")]] if g.chance(0.7) else [], "graphs": []}
+        if tpl["triples"] and g.chance(0.4):
+            tpl["triples"].append([V("s"), g.pick(PREDS), V("z")])  # a second pattern: several solutions share triples to delete
         if dataset and g.chance(0.5):
             # GRAPH ?g in DELETE WHERE is a listed known finding (it ends the run): rare
             tpl["graphs"].append([V("g") if g.chance(0.12) else g.pick(G), [[V("s"), g.pick(PREDS), V("o2")]]])
